@@ -31,6 +31,9 @@ CHECKS['C19'] = dict(tech=T + ' (ChaiScript_Basic::load_file/skip_bom) over a co
 CHECKS['C13'] = dict(tech=T + ' of each public Dispatch_Engine entry with a lock-state model behind pthread_rwlock_* and table operations replaced by stubs that assert the lock mode',
    text='Lock-discipline obligations (the sufficient condition the code relies on): for each covered entry every read of a shared table happens with the engine mutex held (shared or unique), every write with it held unique, the right mutex is used, no lock is taken twice, and every exit - normal or throwing - releases all locks; outcomes of the table operations are symbolic. Interleavings are not explored.',
    note='single-threaded symbolic execution; does not detect races on payloads reached through pointers read under the lock nor ordering bugs between correctly locked sections; entries covered so far: add_global_const, add_global, add_global_no_throw, set_global, add(Type_Info), get_type')
+CHECKS['C18'] = dict(tech=T + ' (json_escape, JSONParser::parse_string/parse_bool/parse_null/consume_ws/parse_next/parse_array) on symbolic text',
+   text='String round trip json_escape->parse_string is the identity for every string of up to N bytes (all byte values); the scalar kernels tolerate every text of up to N bytes from every start offset (no access outside the text, only runtime_error/out_of_range leave, cursor within bounds); parse_next dispatches by first character, rejects nesting depth > 512 for ANY depth value and containers parse elements at depth+1 (bounded native recursion by induction).',
+   note='texts <= 15 bytes (SSO string model); JSON value constructors are recorders; numbers (floating accuracy) and container round trip are declined')
 ALL = ['C%02d' % i for i in range(1, 21)]
 def main():
     checks = []
